@@ -40,4 +40,6 @@ def obligations(tier):
            module=H, func='s_tqdm_forward', timeout=300),
         Ob('E.auth', 'E', 'requires_auth (sync and async): a expired authorisations in a row are masked, result delivered once', 'a = 0..6 x sync/async',
            ['replicat.utils:requires_auth'], module=H, func='e_auth', timeout=300),
+        Ob('E.authfail', 'E', 'requires_auth when authenticate() itself fails (its first call, a re-authentication, both), plain and coroutine backends, 1 or 3 concurrent calls and one call afterwards: the affected call ends with the error, nobody waits for the authorisation lock forever',
+           '2 kinds x 4 failure patterns x 0/1 expiry x {1,3} threads = 32', ['replicat.utils:requires_auth'], module=H, func='e_auth_failure', timeout=600),
     ]
